@@ -10,6 +10,7 @@ import (
 	"time"
 
 	"verif/sim/core"
+	_ "verif/sim/ctl"
 	_ "verif/sim/engines"
 )
 
